@@ -146,6 +146,18 @@ func r10g(c *core.Ctx) {
 				have = fmt.Sprintf("bounds on the octet at the store: lo=%d(%v) hi=%d(%v)", lo, okLo, hi, okHi)
 			}
 			c.Check(have == "", "fold-ascii-only:"+core.FuncName(fn), st.Pos(), fn, "an octet of a name is rewritten only when it is within 'A'..'Z'", have)
+			// …and every upper-case letter is: the guard admits exactly 'A'..'Z', and the store sits in a loop that visits
+			// every index of the slice (rules and cached answers are matched on the folded name: a letter left unfolded
+			// makes matching case-sensitive for names containing it)
+			if have == "" {
+				cover := ""
+				if hi != 'Z' || lo != 'A' {
+					cover = fmt.Sprintf("the guard admits %q..%q only", rune(lo), rune(hi))
+				} else if why := fullSweep(ia); why != "" {
+					cover = why
+				}
+				c.Check(cover == "", "fold-complete:"+core.FuncName(fn), st.Pos(), fn, "every octet within 'A'..'Z' of the whole name is folded", cover)
+			}
 			// the octet written is the lower-case form of the octet read: elem + 32 (or elem | 0x20)
 			delta := ""
 			if bo, ok := st.Val.(*ssa.BinOp); ok && bo.Op == token.OR {
@@ -200,6 +212,102 @@ func r10g(c *core.Ctx) {
 	if stores < 1 {
 		c.Unknown("fold-store", root.Pos(), root, "case folding writes octets in module code (at least one guarded store reachable from ToLowerName)", fmt.Sprintf("%d stores, %d library calls", stores, libs))
 	}
+}
+
+// fullSweep: the element address ia = &s[i] is computed in a loop whose index visits 0..len(s)-1: the forms go/ssa
+// produces for `for i := range s` / `for i, c := range s` (index phi(-1, i+1), test i+1 < len(s)) and the classic
+// `for i := 0; i < len(s); i++`. Returns "" when it does, else the reason.
+func fullSweep(ia *ssa.IndexAddr) string {
+	idx := ia.Index
+	for {
+		if cv, ok := idx.(*ssa.Convert); ok {
+			idx = cv.X
+			continue
+		}
+		break
+	}
+	isLenOf := func(v ssa.Value) bool {
+		call, ok := v.(*ssa.Call)
+		if !ok {
+			return false
+		}
+		b, ok := call.Call.Value.(*ssa.Builtin)
+		return ok && b.Name() == "len" && len(call.Call.Args) == 1 && call.Call.Args[0] == ia.X
+	}
+	var phi *ssa.Phi
+	rangeForm := false
+	switch x := idx.(type) {
+	case *ssa.Phi:
+		phi = x
+	case *ssa.BinOp:
+		if p, ok := x.X.(*ssa.Phi); ok && x.Op == token.ADD {
+			if k, isC := core.ConstInt(x.Y); isC && k == 1 {
+				phi, rangeForm = p, true
+			}
+		}
+	}
+	if phi == nil || len(phi.Edges) < 2 {
+		return "the index is not a loop counter: " + core.Expr(ia.Index)
+	}
+	start, step := int64(-99), false
+	for _, e := range phi.Edges {
+		if k, isC := core.ConstInt(e); isC {
+			start = k
+			continue
+		}
+		if bo, ok := e.(*ssa.BinOp); ok && bo.Op == token.ADD && bo.X == ssa.Value(phi) {
+			if k, isC := core.ConstInt(bo.Y); isC && k == 1 {
+				step = true
+			}
+		}
+	}
+	if !step {
+		return "the index does not advance by one"
+	}
+	if rangeForm && start != -1 || !rangeForm && start != 0 {
+		return fmt.Sprintf("the sweep starts at index %d", start+map[bool]int64{true: 1, false: 0}[rangeForm])
+	}
+	// the loop continues while the (next) index is below len(s); that test is the only way out of the loop
+	hb := phi.Block()
+	var test *ssa.If
+	for _, b := range append([]*ssa.BasicBlock{hb}, hb.Succs...) {
+		if iff, ok := b.Instrs[len(b.Instrs)-1].(*ssa.If); ok && test == nil {
+			if cm, ok := core.CmpOf(iff.Cond); ok && cm.Op == "<" && !cm.Neg && isLenOf(cm.YV) {
+				x := cm.XV
+				if rangeForm {
+					if bo, ok := x.(*ssa.BinOp); ok && bo.Op == token.ADD && bo.X == ssa.Value(phi) {
+						test = iff
+					}
+				} else if x == ssa.Value(phi) {
+					test = iff
+				}
+			}
+		}
+	}
+	if test == nil {
+		return "the loop is not bounded by len of the slice being folded"
+	}
+	// no other exit: every block of the natural loop other than the test block has its successors inside the loop
+	for _, l := range naturalLoops(hb.Parent()) {
+		if l.head != hb {
+			continue
+		}
+		for b := range l.body {
+			if b == test.Block() {
+				continue
+			}
+			for _, s := range b.Succs {
+				if !l.body[s] {
+					return "the loop can be left before the last octet (" + core.Expr(ia.Index) + ")"
+				}
+			}
+			if len(b.Succs) == 0 {
+				return "the loop can be left before the last octet"
+			}
+		}
+		return ""
+	}
+	return "loop not found"
 }
 
 // minAt: the greatest constant lower bound the dominating branch conditions put on a value selected by is.
